@@ -29,16 +29,15 @@ def tie(ctx, broken):
     R.count_runs(ctx, out, lambda tr, P: sum(1 for e in tr["events"] if e[0] == "update_incumbent") >= 2)
     R.apply_monitor(ctx, out, R.mon_c04)
     # result fields vs the model's final incumbent (the model's final cur is compared in the tie; here result.* vs last probe)
-    for tr, P in out:
-        if "result" in tr and P is not None and P["expect"]:
-            last = P["expect"][-1]
-            ok = tr["result"]["fval"] == last["f"] and tr["final"]["inv_u"] == tr["result"]["x"]
-            if not ctx.oblige("result_matches_final_incumbent", "correspondence", ok, str(tr["spec"])):
-                broken.append(("result_matches_final_incumbent", f"OptimizeResult.x/fval differ from the final incumbent for {tr['spec']}"))
-                break
+    badres = [tr["spec"] for tr, P in out if "result" in tr and P is not None and P["expect"]
+              and not (tr["result"]["fval"] == P["expect"][-1]["f"] and tr["final"]["inv_u"] == tr["result"]["x"])]
+    if not ctx.oblige("result_matches_final_incumbent", "correspondence", not badres, str(badres[:2])):
+        broken.append(("result_matches_final_incumbent", f"OptimizeResult.x/fval differ from the final incumbent for {badres[:2]}"))
 
 
 def search(ctx, broken):
+    if R.truncate_search(ctx, R.mon_c04):
+        return True
     specs = [s for s in S.panel("thorough", ctx.seed + 23) if s["noise"] == "det"][:40]
     out = [(tr, None) for tr in S.traces([(s, None) for s in specs], "c04s")]
     return R.apply_monitor(ctx, out, R.mon_c04) > 0
